@@ -669,7 +669,8 @@ def eof_means_end(ctx):
         if not fs:
             ctx.anchor_missing('<%s as Read>::read' % adt)
             continue
-        f = fs[0]
+        from rules.io import effective_read
+        f = effective_read(F, fs[0])
         prov = Prov(f)
         for rb, rt, rc in f.calls():
             if not is_trait_call(rc, READ_TRAITS, 'read') or rt['dest']['p']:
